@@ -116,6 +116,7 @@ type harnessSummary struct {
 	Completed       int64          `json:"completed"`
 	Pruned          int64          `json:"pruned_by_assume"`
 	Decisions       int64          `json:"solver_decided_branches"`
+	Choices         int64          `json:"enumerated_choices"`
 	AssertsSolver   int64          `json:"assertions_discharged_by_solver"`
 	AssertsConcrete int64          `json:"assertions_true_by_constant_folding"`
 	Steps           int64          `json:"ssa_instructions_executed"`
@@ -214,7 +215,7 @@ func (c *checker) run(id string) int {
 	byHarness := map[string]*harnessSummary{}
 	for _, r := range results {
 		rep, h := r.rep, r.h
-		s := harnessSummary{Name: h, Paths: rep.Paths, Completed: rep.Completed, Pruned: rep.Pruned, Decisions: rep.Branches,
+		s := harnessSummary{Name: h, Paths: rep.Paths, Completed: rep.Completed, Pruned: rep.Pruned, Decisions: rep.Branches, Choices: rep.Choices,
 			AssertsSolver: rep.AssertsSolver, AssertsConcrete: rep.AssertsConcrete, Steps: rep.Steps, Reached: rep.Reached,
 			WallS: rep.Wall.Seconds(), SolverS: rep.SolverTime.Seconds(),
 			Queries:      map[string]int{"sat": rep.SolverSat, "unsat": rep.SolverUnsat, "unknown": rep.SolverUnknown},
@@ -457,7 +458,7 @@ func (c *checker) writeEvidence(id string, seed int64, sums []harnessSummary, fu
 	q := map[string]int{}
 	for _, s := range sums {
 		states += s.Completed
-		transitions += s.Decisions
+		transitions += s.Decisions + s.Choices
 		oblig += s.AssertsSolver + s.AssertsConcrete
 		discharged += s.AssertsSolver + s.AssertsConcrete - int64(s.Violations)
 		solverS += s.SolverS
@@ -506,7 +507,7 @@ func (c *checker) writeEvidence(id string, seed int64, sums []harnessSummary, fu
 			"samples":                       samples,
 			"obligations":                   oblig,
 			"discharged":                    discharged,
-			"explanation":                   "bounded symbolic execution of the real SSA of /repo's current tree; states = feasible paths completed, transitions = solver-decided branch/concretisation/schedule decisions, obligations = assertion evaluations (solver-discharged + constant-folded)",
+			"explanation":                   "bounded symbolic execution of the real SSA of /repo's current tree; states = feasible paths completed, transitions = solver-decided branch/concretisation decisions plus enumerated harness/scheduler choices (reported separately per harness), obligations = assertion evaluations (solver-discharged + constant-folded)",
 			"harnesses":                     sums,
 			"functions_encoded":             fes,
 			"bounds":                        meta.Bounds,
